@@ -6,6 +6,9 @@
 // its trailing trivia) ENDS; last_call_token(call) is the token that ends the call's text
 // (closing parenthese / the string / the closing brace), never an earlier one.
 //
+// MEASURED, out of reach: running the ShiftTokenLine pass (DefaultVisitor::visit_block with
+// ShiftTokenLineProcessor) over the two ENUMERATED one-statement blocks `f "s"` and `f()` does not
+// finish in 400 s, so "every token is shifted exactly once" stays outside the contracts.
 #[cfg(kani)]
 mod verif_kani {
     use super::*;
